@@ -282,6 +282,20 @@ fn num_bytes_for_k(k: u32) -> usize {
     (((k * 3) >> 2) + 1) as usize
 }
 
+#[cfg(feature = "verif-hooks")]
+impl Array6 {
+    pub(super) fn verif_fill(&self, st: &mut crate::verif::HllState) {
+        let k = 1u32 << self.lg_config_k;
+        st.registers = (0..k).map(|slot| self.get(slot)).collect();
+        st.cur_min = 0;
+        st.num_at_cur_min = self.num_zeros;
+        st.hip_accum = self.estimator.hip_accum();
+        st.kxq0 = self.estimator.kxq0();
+        st.kxq1 = self.estimator.kxq1();
+        st.out_of_order = self.estimator.is_out_of_order();
+    }
+}
+
 #[cfg(test)]
 mod tests {
     use super::*;
